@@ -292,7 +292,7 @@ def floordiv_mod(a, b):
         return mk_int(at / bt), mk_int(at % bt)
     c = ctx()
     # the same division occurring twice on a path (body and spec) yields the same q, r
-    key = (z3.simplify(at, som=True).sexpr(), z3.simplify(bt, som=True).sexpr())
+    key = (canon_key(z3.simplify(at, som=True)), canon_key(z3.simplify(bt, som=True)))
     memo = c.__dict__.setdefault('div_memo', {})
     if key in memo:
         return memo[key]
@@ -339,7 +339,7 @@ def div_shift(a, b, k):
     at2 = _int_t(a) + _int_t(k) * _int_t(b)
     bt = _int_t(b)
     q2, r2 = _int_t(q) + _int_t(k), _int_t(r)
-    key = (z3.simplify(at2, som=True).sexpr(), z3.simplify(bt, som=True).sexpr())
+    key = (canon_key(z3.simplify(at2, som=True)), canon_key(z3.simplify(bt, som=True)))
     memo = c.__dict__.setdefault('div_memo', {})
     if key not in memo:
         memo[key] = (mk_int(q2), mk_int(r2))
@@ -648,7 +648,14 @@ def ctx_simplify(t):
                 elif d is False:
                     r = walk(e.arg(2))
                 else:
-                    r = z3.If(cond, walk(e.arg(1)), walk(e.arg(2)))
+                    a1, a2 = walk(e.arg(1)), walk(e.arg(2))
+                    # undecided condition, but the branches may agree where it matters (max(n - p, 0) with p <= n known)
+                    if not has_bound(a1) and not has_bound(a2) and c.valid(z3.Implies(cond, a1 == a2))[0] == 'unsat':
+                        r = a2
+                    elif not has_bound(a1) and not has_bound(a2) and c.valid(z3.Implies(z3.Not(cond), a1 == a2))[0] == 'unsat':
+                        r = a1
+                    else:
+                        r = z3.If(cond, a1, a2)
             else:
                 ch = [walk(x) for x in e.children()]
                 if any(a.get_id() != b.get_id() for a, b in zip(ch, e.children())):
@@ -665,3 +672,35 @@ def ctx_simplify_int(x):
     if isinstance(x, SInt):
         return SInt(ctx_simplify(x.term))
     return x
+
+
+_COMMUTATIVE = None
+
+
+def canon_key(t):
+    """a structural key of a z3 term that does not depend on the order in which z3 happened to arrange the arguments of
+    commutative operators (that order follows internal term ids, i.e. the history of the process)"""
+    global _COMMUTATIVE
+    if _COMMUTATIVE is None:
+        _COMMUTATIVE = {z3.Z3_OP_ADD, z3.Z3_OP_MUL, z3.Z3_OP_AND, z3.Z3_OP_OR, z3.Z3_OP_EQ, z3.Z3_OP_DISTINCT, z3.Z3_OP_IFF, z3.Z3_OP_XOR}
+    memo = {}
+
+    def key(e):
+        i = e.get_id()
+        if i in memo:
+            return memo[i]
+        if z3.is_quantifier(e):
+            r = ('Q', e.is_forall(), e.is_lambda(), e.num_vars(), key(e.body()))
+        elif z3.is_var(e):
+            r = ('V', z3.get_var_index(e))
+        elif z3.is_app(e):
+            ks = [key(c) for c in e.children()]
+            d = e.decl()
+            if d.kind() in _COMMUTATIVE:
+                ks = sorted(ks, key=repr)
+            r = (d.name() if d.kind() == z3.Z3_OP_UNINTERPRETED else str(d), tuple(ks)) if ks else ('C', e.sexpr())
+        else:
+            r = ('?', e.sexpr())
+        memo[i] = r
+        return r
+    return repr(key(z3.simplify(t)))
